@@ -234,8 +234,11 @@ func (w *world) seal(hd *types.Header, ak key, sealCtx []byte) {
 func genesis(r vh.R) (*world, *tip) {
 	V, C, E := types.ValidatorsCount, types.CoresCount, types.EpochLength
 	w := &world{owner: map[types.TicketID][2]int{}}
+	// one of four validator sets: consecutive chains of one process then belong to different "networks", and whatever the node
+	// keeps per epoch number beyond a SetState (ring verifier, caches) would show
+	vset := fmt.Sprintf("v%d-", r.IntN(4))
 	for i := 0; i < V; i++ {
-		w.keys = append(w.keys, mkKey("v", i))
+		w.keys = append(w.keys, mkKey(vset, i))
 	}
 	t := &tip{tau: 0, gk: w.keys, ka: w.keys, used: map[types.TicketID]bool{}}
 	for i := range t.eta {
@@ -327,7 +330,7 @@ func TestVerifC26(t *testing.T) {
 	defer h.Done()
 	types.SetTinyMode()
 	logger.ConfigureLogger("main", logger.LoggerConfig{Level: "FATAL", Enabled: false})
-	n := h.N(60, 1200)
+	n := h.N(120, 1200)
 	for ci := 0; ci < n; ci++ {
 		if !h.Mine("chain", ci) {
 			continue
